@@ -439,6 +439,8 @@ func (handler *prewrite1BatchReqHandler) handleRegionErr(regionErr *errorpb.Erro
 		// It means the transaction's commit state is unknown.
 		// We should return the error `ErrResultUndetermined` to the caller
 		// to for further handling (.i.e disconnect the connection).
+		// Record it as well, so that the keys are not rolled back: the transaction may have been committed.
+		handler.committer.setUndeterminedErr(errors.New(regionErr.String()))
 		return false, errors.WithStack(tikverr.ErrResultUndetermined)
 	}
 
